@@ -1,4 +1,113 @@
 package httpserver
 
+import (
+	"crypto/tls"
+	"fmt"
+	"io"
+	"net"
+	"net/http"
+	"time"
+)
+
 // VerifSites returns the site configurations served by s.
 func (s *Server) VerifSites() []*SiteConfig { return s.sites }
+
+// ---- C19: peer-facing parsers of mitm.go ----
+
+// VerifHelloChecks parses a raw ClientHello message, runs every heuristic on
+// the result, and serves one request through the MITM-detection handler with
+// the given User-Agent. A panic propagates to the caller.
+func VerifHelloChecks(hello []byte, userAgents []string) string {
+	info := parseRawClientHello(hello)
+	info.advertisesHeartbeatSupport()
+	info.looksLikeFirefox()
+	info.looksLikeChrome()
+	info.looksLikeEdge()
+	info.looksLikeSafari()
+	info.looksLikeTor()
+	ln := &tlsHelloListener{helloInfos: map[string]rawHelloInfo{"192.0.2.7:41234": info}}
+	h := &tlsHandler{listener: ln, next: http.HandlerFunc(func(http.ResponseWriter, *http.Request) {})}
+	for _, ua := range userAgents {
+		r, _ := http.NewRequest("GET", "https://a.test/", nil)
+		r.RemoteAddr = "192.0.2.7:41234"
+		r.Header.Set("User-Agent", ua)
+		getVersion(ua, "Firefox")
+		getVersion(ua, "Chrome")
+		h.ServeHTTP(nil, r)
+	}
+	return fmt.Sprintf("%+v", info)
+}
+
+type verifAddr string
+
+func (a verifAddr) Network() string { return "tcp" }
+func (a verifAddr) String() string  { return string(a) }
+
+// verifConn is a net.Conn whose Read returns the scripted chunks one by one.
+type verifConn struct {
+	chunks [][]byte
+	remote string
+}
+
+func (c *verifConn) Read(b []byte) (int, error) {
+	if len(c.chunks) == 0 {
+		return 0, io.EOF
+	}
+	n := copy(b, c.chunks[0])
+	if n < len(c.chunks[0]) {
+		c.chunks[0] = c.chunks[0][n:]
+	} else {
+		c.chunks = c.chunks[1:]
+	}
+	return n, nil
+}
+func (c *verifConn) Write(b []byte) (int, error)      { return len(b), nil }
+func (c *verifConn) Close() error                     { return nil }
+func (c *verifConn) LocalAddr() net.Addr              { return verifAddr("192.0.2.1:443") }
+func (c *verifConn) RemoteAddr() net.Addr             { return verifAddr(c.remote) }
+func (c *verifConn) SetDeadline(time.Time) error      { return nil }
+func (c *verifConn) SetReadDeadline(time.Time) error  { return nil }
+func (c *verifConn) SetWriteDeadline(time.Time) error { return nil }
+
+type verifListener struct{ conns []*verifConn }
+
+func (l *verifListener) Accept() (net.Conn, error) {
+	if len(l.conns) == 0 {
+		return nil, io.EOF
+	}
+	c := l.conns[0]
+	l.conns = l.conns[1:]
+	return c, nil
+}
+func (l *verifListener) Close() error   { return nil }
+func (l *verifListener) Addr() net.Addr { return verifAddr("192.0.2.1:443") }
+
+// VerifRecordHellos accepts one connection per element of conns through the
+// real tlsHelloListener (each connection delivers its bytes in the given
+// chunks), lets crypto/tls read from it, and returns what was recorded for
+// each connection ("" if nothing).
+func VerifRecordHellos(conns [][][]byte, cfg *tls.Config) []string {
+	inner := &verifListener{}
+	for i, chunks := range conns {
+		cp := make([][]byte, len(chunks))
+		for j := range chunks {
+			cp[j] = append([]byte{}, chunks[j]...)
+		}
+		inner.conns = append(inner.conns, &verifConn{chunks: cp, remote: fmt.Sprintf("192.0.2.7:%d", 5000+i)})
+	}
+	ln := newTLSListener(inner, cfg)
+	out := make([]string, len(conns))
+	for i := range conns {
+		c, err := ln.Accept()
+		if err != nil {
+			break
+		}
+		_ = c.(*tls.Conn).Handshake() // fails after the hello (no more bytes); the hello has been teed by then
+		ln.helloInfosMu.RLock()
+		if info, ok := ln.helloInfos[fmt.Sprintf("192.0.2.7:%d", 5000+i)]; ok {
+			out[i] = fmt.Sprintf("%+v", info)
+		}
+		ln.helloInfosMu.RUnlock()
+	}
+	return out
+}
